@@ -68,14 +68,14 @@ def compare_generic(run, key, rp, den, frames, data, delimited):
 
 
 def rdf_norm(it):
-    """rdflib compares language tags case-insensitively and stores them lower-cased."""
-    def t(x):
-        if x[0] == "lit":
-            return ("lit", x[1], x[2].lower(), x[3])
-        return x
+    """Items parsed by the rdflib integration in comparable form.
+
+    Language tags are compared EXACTLY (same spelling as in the stream): rdflib's Literal keeps the spelling it is given and only its
+    __eq__/__hash__ fold case, so two spellings of one tag would collapse inside a Graph -- the universes never contain two spellings
+    of the same tag on the same lexical form, which keeps set comparisons exact as well."""
     if it[0] == "ns":
         return it
-    return tuple(t(x) for x in terms.norm_item(it))
+    return terms.norm_item(it)
 
 
 def compare_rdflib(run, key, rp, den, frames, data, delimited):
@@ -177,33 +177,26 @@ def main(tier: str) -> int:
                 # the same behaviour with one lexical form blown up to 1.5 MiB (the denotation follows: lexical forms pass through unchanged),
                 # an extra frame cut after the first statement row so that the large frame is NOT the last one
                 big = "B" * 1_572_000
-                rows2, done = [], False
-                for r_ in beh["rows"]:
-                    r2 = json.loads(json.dumps(r_))
-                    for sl in "spo":
-                        if isinstance(r2.get(sl), dict) and r2[sl].get("t") == "lit" and not done:
-                            r2[sl]["lex"] = big
-                            done = True
-                            marked = True
-                    rows2.append(r2)
-                    if done and r2["r"] in ("triple", "quad") and not any(x.get("r") == "cut!" for x in rows2):
-                        rows2.append({"r": "cut!"})
+                orig = next((r_[sl]["lex"] for r_ in beh["rows"] for sl in "spo" if isinstance(r_.get(sl), dict) and r_[sl].get("t") == "lit"), None)
+
+                def blow(x):
+                    # a consistent renaming of one lexical form, wherever it occurs (rows, nested terms, graph names -- and the denotation)
+                    if isinstance(x, dict):
+                        return {k_: (big if (k_ == "lex" and v_ == orig) else blow(v_)) for k_, v_ in x.items()}
+                    if isinstance(x, list):
+                        return [blow(v_) for v_ in x]
+                    return x
+
+                done = orig is not None
                 if done:
-                    rows2 = [({"r": "cut"} if x.get("r") == "cut!" else x) for x in rows2]
-                    den2, first = [], True
-                    for d_ in beh["den"]:
-                        d2 = json.loads(json.dumps(d_))
-                        den2.append(d2)
-                    # recompute the denotation's literal: find the first item whose wire row carried the first literal
-                    k = 0
-                    for r_ in rows2:
-                        if r_["r"] in ("triple", "quad", "ns"):
-                            if any(isinstance(r_.get(sl), dict) and r_[sl].get("lex") == big for sl in "spo"):
-                                for sl in "spo":
-                                    if isinstance(r_.get(sl), dict) and r_[sl].get("lex") == big:
-                                        den2[k][sl]["lex"] = big
-                                break
-                            k += 1
+                    rows2, cut_done = [], False
+                    for r_ in beh["rows"]:
+                        r2 = blow(json.loads(json.dumps(r_)))
+                        rows2.append(r2)
+                        if not cut_done and r2["r"] in ("triple", "quad") and json.dumps(r2) != json.dumps(r_):
+                            rows2.append({"r": "cut"})
+                            cut_done = True
+                    den2 = [blow(json.loads(json.dumps(d_))) for d_ in beh["den"]]
                     frames2 = producer.frames_of(rows2)
                     data2 = producer.to_bytes(frames2, True)
                     streams += 1
